@@ -373,6 +373,25 @@ pub fn stress_sources() -> Vec<(String, String)> {
     // several hidden temporaries alive at once: compound array initializers nested three deep, inside methods, inside object
     // literals that are arguments, with `let` inside the sizes
     v.push(("nested-temporaries".into(), "function id(x) -> x;\nlet o = object begin\n  let base = 3;\n  function k(n) -> n * 2 + this.base;\n  function build(n) -> id(array(n, array(n, begin let t = array(n, this.k(n)); t[0] <- t[0] + 1; t end)));\n  function sizes() -> array(let a = 2, array(let b = a + 1, array(let c = b + 1, a * 100 + b * 10 + c)));\nend;\nprint(\"~\\n\", id(object begin function make() -> array(2, array(2, array(2, begin 7 end))); end).make());\nprint(\"~\\n\", o.build(2));\nprint(\"~\\n\", o.sizes());\nlet grid = array(2, array(3, array(2, object begin let v = 0; end)));\ngrid[1][2][0].v <- 5;\nprint(\"~\\n\", grid);\nprint(\"~\\n\", id(array(2, id(array(2, id(array(1, id(4))))))));\nfunction twice() -> array(2, array(2, twice2()));\nfunction twice2() -> array(1, array(1, 9));\nprint(\"~ ~\\n\", twice(), array(array(2, 1)[0] + 1, array(1, 1)[0]));\n".into()));
+    // more than 256 hidden temporaries in one function (140 compound array initializers), more than 256 locals in a method
+    // spread over nested blocks, more than 256 parameters-plus-locals in one frame
+    let mut t = String::from("function many(k) -> begin\nlet acc = 0;\n");
+    for i in 0..140 {
+        t.push_str(&format!("acc <- acc + array(2, begin k + {} end)[1];\n", i));
+    }
+    t.push_str("acc end;\nprint(\"~\\n\", many(1));\nlet o = object begin function wide(p) -> begin\n");
+    for i in 0..100 {
+        t.push_str(&format!("let a{} = p + {}; begin let b{} = a{} * 2; begin let c{} = b{} + 1; p <- p + c{} - c{} end end;\n", i, i, i, i, i, i, i, i));
+    }
+    t.push_str("a0 + a99 + p end; end;\nprint(\"~\\n\", o.wide(3));\n");
+    let ps: Vec<String> = (0..200).map(|i| format!("q{}", i)).collect();
+    let az: Vec<String> = (0..200).map(|i| (i % 9).to_string()).collect();
+    t.push_str(&format!("function framed({}) -> begin\n", ps.join(", ")));
+    for i in 0..100 {
+        t.push_str(&format!("let r{} = q{} + q{};\n", i, i, 199 - i));
+    }
+    t.push_str(&format!("r0 + r50 + r99 + q199 end;\nprint(\"~\\n\", framed({}));\n", az.join(", ")));
+    v.push(("many-temporaries".into(), t));
     // degenerate programs
     v.push(("empty-program".into(), "".into()));
     v.push(("only-comments".into(), "// nothing\n/* at all */\n".into()));
